@@ -707,37 +707,19 @@ func printGroup(c *Ctx) int {
 			})
 		}
 	}
-	// the construction site: in primary's LPAREN clause under `case 1:` of len(exprs)
+	// the construction site: primary(), entered at '(' and with the parenthesised list holding one expression,
+	// returns a freshly built GroupingExpr on every path that does not end in an error (per-token evaluation of
+	// the parser, gramssa.go)
 	fd := c.funcDecl("parser", "parser.primary")
 	okSite := false
-	if fd != nil {
-		ast.Inspect(fd.Body, func(nd ast.Node) bool {
-			cc, ok := nd.(*ast.CaseClause)
-			if !ok || len(cc.List) != 1 || selName(cc.List[0]) != "LPAREN" {
-				return true
-			}
-			ast.Inspect(cc, func(m ast.Node) bool {
-				in, ok := m.(*ast.CaseClause)
-				if !ok || len(in.List) != 1 || litText(in.List[0]) != "1" {
-					return true
-				}
-				for _, st := range in.Body {
-					if r, ok := st.(*ast.ReturnStmt); ok && len(r.Results) == 1 {
-						if u, ok := r.Results[0].(*ast.UnaryExpr); ok && u.Op == token.AND {
-							if cl, ok := u.X.(*ast.CompositeLit); ok && strings.HasSuffix(types.ExprString(cl.Type), "GroupingExpr") {
-								okSite = true
-							}
-						}
-					}
-				}
-				return true
-			})
-			return false
-		})
+	got := []string{"?"}
+	if g := newGssa(c); g != nil {
+		got = g.returnedNodes("primary", "LPAREN", 1)
+		okSite = len(got) == 1 && got[0] == "GroupingExpr"
 	}
 	n++
 	c.check(okSite && built == 1, "group:build", posOf(fd), "a parenthesised single expression always becomes a GroupingExpr (one construction site)",
-		"the parser's '(' clause does not unconditionally return a GroupingExpr for a single parenthesised expression: the printer's precedence test alone cannot restore the grouping")
+		"the parser's '(' clause does not unconditionally return a GroupingExpr for a single parenthesised expression (it returns "+strings.Join(got, " / ")+"; construction sites: "+itoa(int64(built))+"): the printer's precedence test alone cannot restore the grouping")
 	return n
 }
 
@@ -870,11 +852,10 @@ func printPrec(c *Ctx) int {
 	if pp == nil || ap == nil {
 		return 0
 	}
-	g := &gram{c: c, info: pp.TypesInfo, decls: map[string]*ast.FuncDecl{}}
-	for _, fd := range c.allFuncDecls("parser") {
-		if fd.Recv != nil {
-			g.decls[fd.Name.Name] = fd
-		}
+	g := newGssa(c)
+	if g == nil {
+		c.undecided("anchor:parser-ssa", token.NoPos, "package parser not resolvable for the grammar extraction")
+		return 0
 	}
 	// printer side: token -> precedence constant (BinaryExpr.precedence's switch), plus the fixed node types
 	precOf := map[string]int64{}
@@ -943,19 +924,7 @@ func printPrec(c *Ctx) int {
 		}
 	}
 	// parser side: the general chain
-	var chain []*gLevel
-	cur, seen := "expr", map[string]bool{}
-	for cur != "" && !seen[cur] && len(chain) < 24 && cur != "primary" {
-		seen[cur] = true
-		var lv *gLevel
-		if cur == "getline" {
-			lv = g.getlineLevel()
-		} else {
-			lv = g.level(cur, nil, 0)
-		}
-		chain = append(chain, lv)
-		cur = lv.left
-	}
+	chain := g.chain("expr", "primary")
 	prev := int64(-1)
 	prevOps := ""
 	levels := 0
@@ -982,8 +951,8 @@ func printPrec(c *Ctx) int {
 			v, have = p, true
 		}
 		pos := token.NoPos
-		if fd := g.decls[lv.fn]; fd != nil {
-			pos = fd.Pos()
+		if fn := g.methods[lv.fn]; fn != nil {
+			pos = fn.Pos()
 		}
 		switch {
 		case !have || !same:
